@@ -255,8 +255,9 @@ def run(ctx):
         if rng.random() < 0.25:
             k = int(rng.integers(1, min(3, n - 1) + 1))
             modes = rng.choice(n, size=k, replace=False).tolist()
-            for m in modes:
-                circ.herald(int(rng.integers(0, 2)), int(m))
+            outs = rng.permutation(modes).tolist() if rng.random() < 0.4 else modes
+            for m, o in zip(modes, outs):
+                circ.herald(int(rng.integers(0, 2)), int(m), int(o))
             heralded = True
             ctx.bucket("heralded_circuit")
         noisy = bool(rng.random() < 0.4)
